@@ -316,6 +316,10 @@ pub fn eval_session_check(check: &str, case: &Case, replies: &[String]) -> Optio
                             let p = recs.iter().filter(|r| r.starts_with("P:")).count();
                             let t = recs.iter().filter(|r| r.starts_with("T:")).count();
                             let is_list = case.ops[i].starts_with("start ") && crate::imp::unhex(&case.ops[i][6..]).map(|s| s.trim().to_uppercase().starts_with("LIST")).unwrap_or(false);
+                            if p > 0 && recs.iter().any(|r| *r == "R" || r.starts_with("R:")) {
+                                res = Err(format!("host call at op {} refused a reply (REENTER) and also produced {} Print record(s): more than the INPUT statement ran", i, p));
+                                break;
+                            }
                             if p > 1 && !is_list {
                                 res = Err(format!("host call at op {} produced {} Print records (more than one statement ran)", i, p));
                                 break;
@@ -409,12 +413,20 @@ pub fn eval_session_check(check: &str, case: &Case, replies: &[String]) -> Optio
         ["traced-calls"] => {
             let mut res = Ok(());
             for i in 1..case.ops.len() {
-                if case.ops[i] == "cont" && case.ops[i - 1] == "snap" {
+                // a continued call after a snapshot, or the CONT command after a snapshot taken at a breakpoint
+                let is_cont_cmd = case.ops[i].strip_prefix("start ").and_then(crate::imp::unhex).map(|t| t.trim().eq_ignore_ascii_case("CONT")).unwrap_or(false);
+                if (case.ops[i] == "cont" || is_cont_cmd) && case.ops[i - 1] == "snap" {
                     let f = snapshot_fields(&replies[i - 1]);
                     if field(&f, "trace") != "1" {
                         continue;
                     }
-                    let loc = field(&f, "loc");
+                    if is_cont_cmd && (field(&f, "state") != "Idle" || !replies[i].starts_with("ok")) {
+                        continue;
+                    }
+                    let loc = if is_cont_cmd { field(&f, "bp") } else { field(&f, "loc") };
+                    if loc == "-" {
+                        continue;
+                    }
                     let mut it = loc.split(':');
                     let (line, idx) = (it.next().unwrap_or(""), it.next().unwrap_or("0").parse::<usize>().unwrap_or(0));
                     if line == "imm" || line.is_empty() {
